@@ -71,7 +71,7 @@ func c03eval(r *vx.R, c c03case) {
 }
 
 func TestVX_C03(t *testing.T) {
-	r := vx.Begin("C03", "verify-exact", "VerifyHashed on: valid base signatures (keys {1,2,n-2,seeded} x digests {seeded,0,2^256-1}); every single-bit flip of pubx, puby, e, r, s (5x256 per base); every argument at lengths {0,1,31,33,64}; r or s in {0,n,n+1,2^256-1}; tuples *solved* to satisfy the verification equation while violating one side condition: r+s=n, r>=n (r+n presented), s>=n, [s]G+[t]P = O (D13), off-curve and non-canonical keys, swapped coordinates, negated key; short-t valid signatures (must be accepted). Oracle: sm2ref.Verify, the seven conditions of GM/T 0003.2 section 7.1. Shape=(mutation class, position, first failing condition); result point [s]G+[t]P steered (public key solved) to points with x1 in {0,1,..; n+j; n-1-j; p-1-j; 2^255+j}, +-y, with e and e+n, and with a wrong r; off-curve keys differing from the curve in structured bit sets, with e solved by the implementation's own arithmetic wherever its decoder lets such a key through")
+	r := vx.Begin("C03", "verify-exact", "VerifyHashed on: valid base signatures (keys {1,2,n-2,seeded} x digests {seeded,0,2^256-1}); every single-bit flip of pubx, puby, e, r, s (5x256 per base); every argument at lengths {0,1,31,33,64}; r or s in {0,n,n+1,2^256-1}; tuples *solved* to satisfy the verification equation while violating one side condition: r+s=n, r>=n (r+n presented), s>=n, [s]G+[t]P = O (D13), off-curve and non-canonical keys, swapped coordinates, negated key; short-t valid signatures (must be accepted). Oracle: sm2ref.Verify, the seven conditions of GM/T 0003.2 section 7.1. Shape=(mutation class, position, first failing condition); result point [s]G+[t]P steered (public key solved) to points with x1 in {0,1,..; n+j; n-1-j; p-1-j; 2^255+j}, +-y, with e and e+n, and with a wrong r; off-curve keys differing from the curve in structured bit sets, with e solved by the implementation's own arithmetic wherever its decoder lets such a key through; 1300 (thorough 5000) distinct public keys in one process followed by a second visit of the first 40 with their own and a neighbour's signature; keys d and n-d in alternation, each with its own and the other's signature")
 	defer r.End()
 	selfCheck()
 	if raw, ok := vx.Replay("verify-exact"); ok {
@@ -313,6 +313,82 @@ func TestVX_C03(t *testing.T) {
 				e := modN(new(big.Int).Sub(bi(b.r), x1))
 				run(fmt.Sprintf("key:near-curve-solved:%d:%s", qi, names[i]), b32(xs[i]), b32(ys[i]), b32(e), b.r, b.s)
 			}
+		}
+	}
+	// (x) volume and related keys: 1300 distinct public keys are verified under (growth of whatever the verifier remembers
+	// per key), then the first ones again with valid and invalid signatures; and keys d / n-d (same x, opposite y) in
+	// alternation, each with its own and with the other's signature
+	if vx.MineIdx(3) {
+		kV := modN(bi(vx.Fill("c03volk", 32)))
+		x1 := sm2ref.BaseMul(kV).X
+		eV := vx.Fill("c03vole", 32)
+		rV := modN(new(big.Int).Add(bi(eV), x1))
+		sigFor := func(d *big.Int) *big.Int { // s = (k - r d) / (1 + d)
+			return modN(new(big.Int).Mul(modN(new(big.Int).Sub(kV, new(big.Int).Mul(rV, d))), invN(modN(new(big.Int).Add(d, one)))))
+		}
+		type kp struct {
+			d      *big.Int
+			px, py []byte
+			s      []byte
+		}
+		var kps []kp
+		P := sm2ref.Infinity()
+		nKeys := 1300
+		if vx.Thorough() {
+			nKeys = 5000
+		}
+		for i := 1; i <= nKeys; i++ {
+			P = sm2ref.Add(P, sm2ref.G())
+			d := big.NewInt(int64(i))
+			kps = append(kps, kp{d, b32(P.X), b32(P.Y), b32(sigFor(d))})
+		}
+		verify := func(k kp, sv []byte, want bool, shape string) {
+			r.Eval(1)
+			var ok bool
+			kind, msg := vx.Try(func() { ok, _ = sm2.VerifyHashed(k.px, k.py, eV, b32(rV), sv) })
+			cs := c03case{shape, vx.Hex(k.px), vx.Hex(k.py), vx.Hex(eV), vx.Hex(b32(rV)), vx.Hex(sv)}
+			if kind != "" {
+				r.Violation("verify:volume:panic", msg, cs)
+			} else if ok != want {
+				r.Violation(fmt.Sprintf("verify:volume:%s:got=%v", shape, ok), fmt.Sprintf("%s: VerifyHashed returned %v for key [%s]G, the standard says %v", shape, ok, k.d, want), cs)
+			}
+		}
+		if rV.Sign() != 0 {
+			for _, k := range kps {
+				if modN(new(big.Int).Add(rV, bi(k.s))).Sign() == 0 || bi(k.s).Sign() == 0 {
+					continue
+				}
+				verify(k, k.s, true, "first-pass")
+			}
+			for i := 0; i < 40; i++ {
+				k := kps[i]
+				if modN(new(big.Int).Add(rV, bi(k.s))).Sign() == 0 || bi(k.s).Sign() == 0 {
+					continue
+				}
+				verify(k, k.s, true, "revisit-valid")
+				verify(k, kps[i+1].s, false, "revisit-other-keys-signature")
+			}
+			r.Shape("volume")
+			// d and n-d
+			for _, dv := range []int64{1, 2, 77} {
+				d := big.NewInt(dv)
+				dn := new(big.Int).Sub(bigN, d)
+				if !sm2ref.ValidKey(dn) {
+					continue
+				}
+				pa, pb := sm2ref.BaseMul(d), sm2ref.BaseMul(dn)
+				ka := kp{d, b32(pa.X), b32(pa.Y), b32(sigFor(d))}
+				kb := kp{dn, b32(pb.X), b32(pb.Y), b32(sigFor(dn))}
+				for round := 0; round < 2; round++ {
+					verify(ka, ka.s, true, "negated-pair:P-own")
+					verify(kb, kb.s, true, "negated-pair:-P-own")
+					verify(kb, ka.s, false, "negated-pair:-P-with-P's")
+					verify(ka, ka.s, true, "negated-pair:P-own-again")
+					verify(ka, kb.s, false, "negated-pair:P-with--P's")
+					verify(kb, kb.s, true, "negated-pair:-P-own-again")
+				}
+			}
+			r.Shape("negated-pairs")
 		}
 	}
 	// (vii) the id- and message-level verifiers on arguments of the wrong length: false, never a panic
